@@ -551,7 +551,7 @@ def coq_map_case(c: dict) -> str:
 
 def corr_maps(ctx, res: CorrResult):
     rng = ctx.rng
-    n = ctx.scale(400, 12000)
+    n = ctx.scale(360, 12000)
     cases, outs = [], []
     for _ in range(n):
         c = gen_map_case(rng)
@@ -689,7 +689,7 @@ def corr_systemize(ctx, res: CorrResult, models):
         cases.append({"source": spec_source(mm.spec), "values": mm.spec["values"], "impl": "rejected" if "rejected" in o else "matrices"})
         texts.append(f"  (({coq_bool(exact)}, {coq_sys_case(info, mm.rho)}),\n   {exp})")
         res.distribution["exact_cases"] = res.distribution.get("exact_cases", 0) + int(exact)
-    per = 30
+    per = 45
     shards = []
     for i in range(0, len(texts), per):
         lines = [HEADER, "Definition cases : list ((bool * option (list (list (list float)))) * option (list (list (list float)))) := [",
@@ -793,7 +793,7 @@ def corr_steady(ctx, res: CorrResult, models):
             call = f"nonflat_steady_jacobian FA {k} (rho_of FA {p['rho']}) (lg_of {p['logs']})\n     {p['eqs']} {wq}"
         cases.append({"source": spec_source(mm.spec), "values": mm.spec["values"], "flat": flat})
         texts.append(f"  (({coq_bool(exact)}, {call}),\n   {Jc})")
-    per = 30
+    per = 45
     shards = []
     for i in range(0, len(texts), per):
         lines = [HEADER, "Definition cases : list ((bool * option (list (list float))) * option (list (list float))) := [",
@@ -910,7 +910,7 @@ def corr_stacked(ctx, res: CorrResult, models):
                 f"{coq_tokens(spots)} {coq_list([coq_z(c) for c in cols])}")
         cases.append({"source": spec_source(mm.spec), "values": mm.spec["values"], "periods": nper})
         texts.append(f"  (({coq_bool(exact)}, {call}),\n   {Jc})")
-    per = 25
+    per = 35
     shards = []
     for i in range(0, len(texts), per):
         lines = [HEADER, "Definition cases : list ((bool * option (list (list float))) * option (list (list float))) := [",
@@ -940,15 +940,15 @@ def correspondence(ctx) -> CorrResult:
     t0 = time.time()
     nt = corr_maps(ctx, res)
     ctx.log(f"maps: {res.evaluations} cases, {time.time() - t0:.1f}s"); t0 = time.time()
-    n = ctx.scale(260, 8000)
+    n = ctx.scale(170, 8000)
     models = make_models(ctx, n, res)
     ctx.log(f"models: {len(models)} generated, {time.time() - t0:.1f}s"); t0 = time.time()
     nt += corr_systemize(ctx, res, models)
     ctx.log(f"systemize: {time.time() - t0:.1f}s"); t0 = time.time()
-    sub = models[: ctx.scale(120, 3000)]
+    sub = models[: ctx.scale(80, 3000)]
     nt += corr_steady(ctx, res, sub)
     ctx.log(f"steady: {res.distribution.get('steady_models')} cases {time.time() - t0:.1f}s"); t0 = time.time()
-    nt += corr_stacked(ctx, res, models[: ctx.scale(100, 2500)])
+    nt += corr_stacked(ctx, res, models[: ctx.scale(70, 2500)])
     ctx.log(f"stacked: {res.distribution.get('stacked_models')} cases {time.time() - t0:.1f}s")
     res.distinct_nontrivial = nt
     res.distribution["models_generated"] = len(models)
@@ -1370,15 +1370,15 @@ def falsify(ctx, hints):
         except Exception as e:  # noqa
             counts.setdefault("witness_errors", []).append(f"{type(e).__name__}: {e}"[:120])
     # 2. random models
-    n = ctx.scale(70, 2500)
+    n = ctx.scale(60, 2500)
     models = make_models(ctx, n, res, special_share=0.15)
     for mm in models:
         falsify_systemize(mm, fails, counts)
         if len(fails) > 40:
             break
-    for mm in models[: ctx.scale(40, 1200)]:
+    for mm in models[: ctx.scale(35, 1200)]:
         falsify_steady(mm, fails, counts)
-    for mm in models[: ctx.scale(40, 1200)]:
+    for mm in models[: ctx.scale(35, 1200)]:
         falsify_stacked(mm, rng, fails, counts)
     falsify_terminal(ctx, fails, counts)
     user_function_checks(ctx, fails, counts)
